@@ -322,21 +322,22 @@ BODY_LINES = [" First paragraph words", " note: this is not a key", " http://exa
 
 
 def _meta_prog(lines):
-    return ["module m", "integer :: x"] + ["!!" + l for l in lines] + ["end module m"]
+    # two entities declared by one statement: the comment documents (and its metadata applies to) each of them
+    return ["module m", "integer :: x, y"] + ["!!" + l for l in lines] + ["end module m"]
 
 
 def _meta_observe(f):
-    v = f.modules[0].variables[0]
-    return v.meta, list(v.doc_list)
+    vs = list(f.modules[0].variables)
+    return [(v.meta, list(v.doc_list)) for v in vs]
 
 
 def replay_meta(w):
     f = parserh.parse_concrete(_meta_prog(w["lines"]))
-    meta, body = _meta_observe(f)
-    got_meta = {k: getattr(meta, k) for k, _ in w["expected_meta"]}
+    obs = _meta_observe(f)
     want_meta = {k: v for k, v in w["expected_meta"]}
-    bad = got_meta != want_meta or [b for b in body if b.strip()] != [b for b in w["expected_body"] if b.strip()]
-    return bad, {"doc_lines": w["lines"], "ford_meta": got_meta, "ford_body": body, "expected_meta": want_meta, "expected_body": w["expected_body"]}
+    got = [({k: getattr(meta, k) for k, _ in w["expected_meta"]}, body) for meta, body in obs]
+    bad = len(obs) != 2 or any(gm != want_meta or [b for b in body if b.strip()] != [b for b in w["expected_body"] if b.strip()] for gm, body in got)
+    return bad, {"doc_lines": w["lines"], "ford_meta_and_body_of_x_and_y": got, "expected_meta": want_meta, "expected_body": w["expected_body"]}
 
 
 @obligation("C03", "O3.metadata-split", engine="SX(CV)", timeout=1800)
@@ -369,16 +370,17 @@ def metadata(ctx):
                                           "expected_meta": [list(choice.value_in_model(m, x[1])) for x in ms],
                                           "expected_body": [choice.value_in_model(m, x) for x in bs]}
                 f = parserh.parse(_meta_prog(lines), post=None) if False else parserh.parse(_meta_prog(lines))
-                meta, body = _meta_observe(f)
+                obs = _meta_observe(f)
                 E.reachable("parsed")
-                for m_ in ms:
-                    got = choice.apply(lambda kv: None, m_[1])  # placeholder to keep indices alive
-                    val = choice.apply(lambda kv, mm=meta: getattr(mm, kv[0]), m_[1])
-                    E.require(choice.apply(lambda g, kv: g == kv[1], val, m_[1]), "metadata value not set on the entity")
-                bodyn = [b for b in body if not (b == "")]
-                E.require(choice.apply(lambda n: n == nbody, len(bodyn)), "number of body lines differs (metadata shown or body swallowed)")
-                for g, w_ in zip(bodyn, bs):
-                    E.require(choice.apply(lambda a, b: a == b, g, w_), "body line changed, reordered or dropped")
+                E.require(len(obs) == 2, "the two declared entities are not both reported")
+                for meta, body in obs:
+                    for m_ in ms:
+                        val = choice.apply(lambda kv, mm=meta: getattr(mm, kv[0]), m_[1])
+                        E.require(choice.apply(lambda g, kv: g == kv[1], val, m_[1]), "metadata value not set on the entity")
+                    bodyn = [b for b in body if not (b == "")]
+                    E.require(choice.apply(lambda n: n == nbody, len(bodyn)), "number of body lines differs (metadata shown or body swallowed)")
+                    for g, w_ in zip(bodyn, bs):
+                        E.require(choice.apply(lambda a, b: a == b, g, w_), "body line changed, reordered or dropped")
 
             with patch_ctx(st):
                 E = sym.Engine(ctx, max_paths=20000, incremental=True)
